@@ -428,3 +428,66 @@ QUERIES = [
      "timeout": {"quick": 600, "thorough": 1800},
      "bound": "any subset of 5 (quick) / 6 (thorough) log base names (each with .stdout and .stderr) incl. dotted names that are prefixes of each other, 4 target sets, setting on/off, dry-run on/off"},
 ]
+
+
+# ---------------------------------------------------------------- Q10f several targets in one run: options do not leak between submissions
+OPTSETS = [("none", {}), ("queue+account", {"queue": "short", "account": "proj42"}), ("cores", {"cores": 8}), ("queue None", {"queue": None}), ("unknown", {"frobnicate": 1}), ("memory", {"memory": "12g"})]
+
+
+def _q10f(o1, o2, o3, dep):
+    """Three targets submitted by one `gwf run` (name order X1, X2, X3; X2 optionally depends on X1): every
+    script carries exactly the directives its own target's options resolve to."""
+    be = q.SHARD["be"]
+    if not (q.in_range(o1, len(OPTSETS)) and q.in_range(o2, len(OPTSETS)) and q.in_range(o3, len(OPTSETS))):
+        return q.SKIP
+    if "o1" in q.SHARD and o1 != q.SHARD["o1"]:
+        return q.SKIP
+    sets = [q.pick(OPTSETS, o1), q.pick(OPTSETS, o2), q.pick(OPTSETS, o3)]
+    dep = True if dep else False
+    with q.notrace():
+        w = World(be)
+        w.file("src", 5)
+        w.target("X1", ["src"], ["x1"], **sets[0][1])
+        w.target("X2", ["x1"] if dep else ["src"], ["x2"], **sets[1][1])
+        w.target("X3", ["src"], ["x3"], **sets[2][1])
+        w.install()
+    try:
+        w.run()
+        jobs = {j.name: j for j in w.sim.submitted()}
+        if sorted(jobs) != ["X1", "X2", "X3"]:
+            return "submitted %s" % sorted(jobs)
+        for k, nm in enumerate(("X1", "X2", "X3")):
+            label, opts = sets[k]
+            vals = shell.option_values(be, jobs[nm].script)
+            for name in shell.FLAGS[be]:
+                want = opts[name] if name in opts else DEFAULTS[be].get(name)
+                got = vals.get(name, [])
+                if want is None:
+                    if got:
+                        return "%s (%s): option %s resolved to None but its script carries %r (other targets: %s)" % (nm, label, name, got, [s[0] for s in sets])
+                else:
+                    cores = opts.get("cores", DEFAULTS[be].get("cores", 1)) or 1
+                    text = _expected_text(be, name, want, cores)
+                    if got != [text]:
+                        return "%s (%s): option %s: script carries %r, expected %r (other targets in this run: %s)" % (nm, label, name, got, text, [s[0] for s in sets])
+            if "frobnicate" in jobs[nm].script:
+                return "%s: unknown option reached the script" % nm
+        return ""
+    finally:
+        w.uninstall()
+
+
+def q10f(o1: int, o2: int, o3: int, dep: bool) -> str:
+    """
+    post: _ == ""
+    """
+    return q.run(_q10f, (o1, o2, o3, dep))
+
+
+QUERIES.append(
+    {"name": "Q10f", "fn": q10f,
+     "shards": {"quick": [{"be": "slurm", "o1": k} for k in range(len(OPTSETS))] + [{"be": "sge", "o1": 0}, {"be": "sge", "o1": 3}, {"be": "lsf", "o1": 0}],
+                "thorough": [{"be": b, "o1": k} for b in BES for k in range(len(OPTSETS))]},
+     "timeout": {"quick": 900, "thorough": 1800},
+     "bound": "three targets submitted by one `gwf run`, each with one of the option sets %s (symbolic), the second optionally depending on the first: every script carries its own target's resolved directives "
+              "(options of one submission must not influence another)" % ([s[0] for s in OPTSETS],)})
